@@ -34,6 +34,7 @@ class HarnessResult:
         self.symex_s = None
         self.solver_s = None
         self.playback = None        # text of generated playback test
+        self.playbacks = []         # all generated tests (one per failed check / satisfied cover)
 
     def to_json(self):
         return dict(name=self.name, pretty=self.pretty, status=self.status, reason=self.reason,
@@ -210,7 +211,11 @@ def run_harnesses(repo, crate, names, timeout_s=900, jobs=4, playback=False, ext
         for m in re.finditer(r"Concrete playback unit test for `([^`]+)`:\s*```(.*?)```", log, re.S):
             short = m.group(1).split("::")[-1]
             if short in results:
-                results[short].playback = (m.group(1), m.group(2).strip())
+                src = m.group(2).strip()
+                if results[short].playback is None:
+                    results[short].playback = (m.group(1), src)
+                    results[short].playbacks = []
+                results[short].playbacks.append((m.group(1), src))
     for hr in results.values():
         if hr.time_s == 0: hr.time_s = wall
     return results, logp
